@@ -56,6 +56,9 @@ structure Partition where
 inductive Chart where
   | circle (radius mx my : Rat) (dom : Option (Rat × Rat))
   | sphere (radius mx my mz : Rat)
+  /-- `Atlas::Bezier`: `closed`, the orientation, one entry per vertex point = (its preceding control points, the
+      vertex point), the parameters -/
+  | bezier (closed : Bool) (orient : Rat) (segs : List (List (List Rat) × List Rat)) (params : List Rat)
   deriving DecidableEq, Repr
 
 structure Node where
@@ -94,6 +97,9 @@ inductive Frame where
   | patch (rank size ne read : Nat) (elems : List Nat)
   | chart (name : Str) (c : Option Chart)     -- `ChartParser`
   | chartItem                                 -- a non-closed `<Circle …>` / `<Sphere …>` waiting for its terminator
+  | bezier (size : Nat) (closed : Bool) (orient : Rat) (segs : List (List (List Rat) × List Rat)) (params : List Rat)
+  | bezierPoints (size read : Nat) (acc : List (List (List Rat) × List Rat))   -- `BezierPointsParser`, acc reversed
+  | bezierParams (size read : Nat) (acc : List Rat)                            -- `BezierParamsParser`, acc reversed
   deriving Repr
 
 structure St where
@@ -249,6 +255,7 @@ def specOf (name : String) : List (Str × Bool) :=
    | "Chart" => [("name", true)]
    | "Circle" => [("radius", true), ("midpoint", true), ("domain", false)]
    | "Sphere" => [("radius", true), ("midpoint", true)]
+   | "Bezier" => [("dim", true), ("size", true), ("type", false), ("orientation", false)]
    | _ => []) : List (String × Bool)).map (fun kv => (kv.1.toList, kv.2))
 
 /-- the `double` literal `1E-5` as an exact rational (the radius threshold of the chart parsers, `CoordType(1E-5)`) -/
@@ -302,6 +309,16 @@ def closeTop (st : St) (line : Nat) : Except Err St :=
   | Frame.root :: rest => .ok { st with stack := rest }
   | Frame.dummy :: rest => .ok { st with stack := rest }
   | Frame.chartItem :: rest => .ok { st with stack := rest }
+  | Frame.bezierPoints size read acc :: Frame.bezier sz cl o segs params :: rest =>
+    if read < size then gErr line
+    else .ok { st with stack := Frame.bezier sz cl o (segs ++ acc.reverse) params :: rest }
+  | Frame.bezierParams size read acc :: Frame.bezier sz cl o segs params :: rest =>
+    if read < size then gErr line
+    else .ok { st with stack := Frame.bezier sz cl o segs (params ++ acc.reverse) :: rest }
+  | Frame.bezier _ cl o segs params :: Frame.chart name _ :: rest =>
+    -- `BezierChartParser::close` checks nothing (a Bezier chart without any point makes the writer crash: K14)
+    .ok { st with stack := Frame.chart name (some (Chart.bezier cl o segs params)) :: rest,
+                  unmodelled := st.unmodelled || segs.isEmpty }
   | Frame.chart name c :: rest =>
     match c with
     | none => gErr line                                   -- "Invalid empty chart"
@@ -420,9 +437,48 @@ def openM (st : St) (line : Nat) (m : Markup) : Except Err St :=
         | .ok ch =>
           let st1 := { st with stack := Frame.chart name (some ch) :: below }
           if m.closed then .ok st1 else .ok { st1 with stack := Frame.chartItem :: st1.stack }
-    else if (st.dim == 2 && nm == "Bezier") || (st.dim == 3 && (nm == "SurfaceMesh" || nm == "Extrude")) then
+    else if st.dim == 2 && nm == "Bezier" then
+      match checkAttribs line (specOf "Bezier") m.attrs with
+      | .error e => .error e
+      | .ok _ =>
+        if m.closed then gErr line
+        else match attrOf m "dim", attrOf m "size" with
+          | some ds, some ss =>
+            match readIndex ds with
+            | none => gErr line
+            | some d =>
+              if d != 2 then gErr line
+              else match readIndex ss with
+                | none => gErr line
+                | some size =>
+                  if size < 2 then gErr line
+                  else
+                    let ty : Except Err Bool := match attrOf m "type" with
+                      | none => .ok false
+                      | some t => if t == "closed".toList then .ok true else if t == "open".toList then .ok false else cErr line
+                    match ty with
+                    | .error e => .error e
+                    | .ok cl =>
+                      -- an unparsable orientation is silently ignored (the default 1 stays)
+                      let o : Rat := match attrOf m "orientation" with
+                        | none => 1
+                        | some os => (readQ os).getD 1
+                      .ok { st with stack := Frame.bezier size cl o [] [] :: st.stack }
+          | _, _ => gErr line
+    else if st.dim == 3 && (nm == "SurfaceMesh" || nm == "Extrude") then
       -- not modelled: remember that, give the chart a placeholder and skip the element
       push { st with stack := Frame.chart name (some (Chart.sphere 0 0 0 0)) :: below, unmodelled := true } Frame.dummy
+    else gErr line
+  | Frame.bezier size _ _ _ _ :: _ =>
+    -- `BezierPointsParser` / `BezierParamsParser` accept no attributes and must not be closed
+    if nm == "Points" then
+      match checkAttribs line [] m.attrs with
+      | .error e => .error e
+      | .ok _ => if m.closed then gErr line else push st (Frame.bezierPoints size 0 [])
+    else if nm == "Params" then
+      match checkAttribs line [] m.attrs with
+      | .error e => .error e
+      | .ok _ => if m.closed then gErr line else push st (Frame.bezierParams size 0 [])
     else gErr line
   | Frame.mesh sizes verts topo :: _ =>
     if nm == "Vertices" then
@@ -522,6 +578,25 @@ def contentM (st : St) (line : Nat) (s : Str) : Except Err St :=
       else match mapMOpt readQ toks with
         | none => cErr line
         | some v => .ok { st with stack := Frame.attr name d count (v :: acc) :: rest }
+  | Frame.bezierPoints size read acc :: rest =>
+    if read ≥ size then cErr line
+    else
+      let toks := splitWs s
+      match readIndex (toks.headD []) with
+      | none => cErr line
+      | some nc =>
+        if read == 0 && nc > 0 then cErr line                       -- "First point must be a vertex point"
+        else if toks.length != (nc + 1) * 2 + 1 then cErr line
+        else match mapMOpt readQ (toks.drop 1) with
+          | none => cErr line
+          | some xs =>
+            let pts := (List.range (nc + 1)).map (fun k => [xs.getD (2 * k) 0, xs.getD (2 * k + 1) 0])
+            .ok { st with stack := Frame.bezierPoints size (read + 1) ((pts.take nc, pts.getD nc []) :: acc) :: rest }
+  | Frame.bezierParams size read acc :: rest =>
+    if read ≥ size then cErr line
+    else match readQ s with
+      | none => cErr line
+      | some x => .ok { st with stack := Frame.bezierParams size (read + 1) (x :: acc) :: rest }
   | Frame.patch rank size ne read elems :: rest =>
     if read ≥ size then cErr line
     else match readIndex s with
@@ -705,7 +780,7 @@ def writePartition (p : Partition) : List Str :=
 
 /-- `MeshFileWriter::write_chart` with `Circle::write` / `Sphere::write` (the circle's domain is reconstructed from its
     transformation, which is exact in rational arithmetic) -/
-def writeChart (name : Str) (c : Chart) : List Str :=
+def writeChartOld (name : Str) (c : Chart) : List Str :=
   [sp 2 ++ "<Chart name=".toList ++ q name ++ ">".toList,
    (match c with
     | .circle r mx my dom =>
@@ -715,8 +790,28 @@ def writeChart (name : Str) (c : Chart) : List Str :=
          | none => []) ++ " />".toList
     | .sphere r mx my mz =>
       sp 4 ++ "<Sphere radius=".toList ++ q (showQ r) ++ " midpoint=".toList ++
-        q (showQ mx ++ ' ' :: showQ my ++ ' ' :: showQ mz) ++ " />".toList),
+        q (showQ mx ++ ' ' :: showQ my ++ ' ' :: showQ mz) ++ " />".toList
+    | .bezier _ _ _ _ => []),
    sp 2 ++ "</Chart>".toList]
+
+/-- `Bezier::write`: the vertex count, `type`, `orientation="-1"` only for -1; per vertex point one line
+    `<#control points> <control coordinates…> <vertex coordinates>`; the `<Params>` block only if there are any -/
+def writeBezier (cl : Bool) (o : Rat) (segs : List (List (List Rat) × List Rat)) (params : List Rat) : List Str :=
+  [sp 4 ++ "<Bezier dim=\"2\" size=".toList ++ q (showNat segs.length) ++ " type=".toList ++
+     q (if cl then "closed".toList else "open".toList) ++ (if o == -1 then " orientation=\"-1\"".toList else []) ++ ">".toList,
+   sp 6 ++ "<Points>".toList] ++
+  segs.map (fun sg => sp 8 ++ joinSp (showNat sg.1.length :: ((sg.1 ++ [sg.2]).flatten.map showQ))) ++
+  [sp 6 ++ "</Points>".toList] ++
+  (if params.isEmpty then [] else
+    [sp 6 ++ "<Params>".toList] ++ params.map (fun x => sp 8 ++ showQ x) ++ [sp 6 ++ "</Params>".toList]) ++
+  [sp 4 ++ "</Bezier>".toList]
+
+/-- `MeshFileWriter::write_chart` -/
+def writeChart (name : Str) (c : Chart) : List Str :=
+  match c with
+  | .bezier cl o segs params =>
+    [sp 2 ++ "<Chart name=".toList ++ q name ++ ">".toList] ++ writeBezier cl o segs params ++ [sp 2 ++ "</Chart>".toList]
+  | _ => writeChartOld name c
 
 def writeLines (sh : Shape) (dim : Nat) (n : Node) : List Str :=
   ["<FeatMeshFile version=\"1\"".toList ++
